@@ -77,7 +77,7 @@ Lemma exec_explained c o c' ev log :
   kv_explained (c_kv c) log -> kv_explained (c_kv c') (log ++ ev).
 Proof.
   intros W E I s d n v K. specialize (I s d n v K). destruct I as [I1 I2].
-  destruct o as [p|p pf h|p a pf h|cp|cp pf h|nm cl|nm h sn t|rs|dt]; cbn [Keeper.exec] in E.
+  destruct o as [p|p pf h|p a pf h|cp|cp pf h|nm cl|nm h sn t|rs|dt|ap]; cbn [Keeper.exec] in E.
   - (* send *)
     pose proof E as E0. apply send_packet_inv in E. destruct E as (V & _ & _ & -> & ->).
     cbn [Keeper.c_kv with_kv]. split; intros X.
@@ -143,17 +143,18 @@ Proof.
     destruct (negb _); [discriminate|]. inversion E; subst. cbn. rewrite app_nil_r. split; auto.
   - destruct (set_rules rs); [|discriminate]. inversion E; subst. cbn. rewrite app_nil_r. split; auto.
   - inversion E; subst. cbn. rewrite app_nil_r. split; auto.
+  - inversion E; subst. cbn. rewrite app_nil_r. split; auto.
 Qed.
 
 (** non-client operations leave the client table alone *)
-Definition not_client_op (o : op) : Prop :=
+Definition not_client_op (o : op A) : Prop :=
   match o with OCreateClient _ _ | OUpdateClient _ _ _ _ => False | _ => True end.
 
 Lemma exec_clients_same c o c' ev :
   not_client_op o -> exec c o = Some (c', ev) -> c_clients A c' = c_clients A c /\ c_name A c' = c_name A c.
 Proof.
   intros NC E.
-  destruct o as [p|p pf h|p a pf h|cp|cp pf h|nm cl|nm h sn t|rs|dt]; cbn [Keeper.exec] in E;
+  destruct o as [p|p pf h|p a pf h|cp|cp pf h|nm cl|nm h sn t|rs|dt|ap]; cbn [Keeper.exec] in E;
     try contradiction.
   - apply send_packet_inv in E. destruct E as (_ & _ & _ & _ & ->). auto.
   - apply msg_recv_inv in E. destruct E as (_ & _ & _ & _ & _ & _ & _ & _ & N1 & N2 & _). auto.
@@ -163,6 +164,9 @@ Proof.
     apply recv_clean_inv in E. destruct E as (_ & _ & _ & _ & ->). auto.
   - destruct (set_rules rs); [|discriminate]. inversion E; subst. auto.
   - inversion E; subst. auto.
+  - inversion E; subst. auto.
 Qed.
 
 End Explained.
+
+Arguments not_client_op {A} o.
